@@ -25,7 +25,7 @@ def history_variants(names, rng):
 
 
 def renamed_node(nd, log, rng, prewarm):
-    node = tagged_node(nd["name"], nd["params"], nd["outs"], log, nd["defaults"])
+    node = tagged_node(nd["name"], nd["params"], nd["outs"], log, nd["defaults"], rename_mode=rng.choice([None, None, "late", "late_swap", "ctor"]))
     if prewarm:
         node.defaults, node.parameter_annotations  # noqa: B018
         Graph([node])
